@@ -568,7 +568,9 @@ def arr_term(a):
 def _split_inner(c, m):
     sp = Split(c)
     sub = c.locals["sub_jac"]
-    return [("offset", c.locals["i_out"] == sp.off(m))] + sp.sub_clauses(sub.member, sub.vals, arr_term(c.locals["function_jac"]), m, tag="si")
+    b = z3.Int("b!si")
+    return [("offset", c.locals["i_out"] == sp.off(m)),
+            ("variables-so-far-have-a-size", z3.ForAll([b], z3.Implies(in_range(b, m), sp.S.has(sp.V.elems[b])), patterns=[sp.V.elems[b]]))] + sp.sub_clauses(sub.member, sub.vals, arr_term(c.locals["function_jac"]), m, tag="si")
 
 
 def _split_outer(c, k):
@@ -576,7 +578,8 @@ def _split_outer(c, k):
     T, R = sp.T, c.locals["j_split"]
     f, i = z3.Const("f!so", TStr.sort()), z3.Int("i!so")
     key = T.keys[i]
-    out = [("functions-so-far", z3.ForAll([f], R.member[f] == z3.And(T.member[f], T.pos[f] < k), patterns=[R.member[f]]))]
+    out = [("functions-so-far", z3.ForAll([f], R.member[f] == z3.And(T.member[f], T.pos[f] < k), patterns=[R.member[f]])),
+           ("variables-have-a-size-once-a-function-is-split", z3.Implies(k >= 1, names_known(sp.V, sp.S, "so")))]
     out += [(f"split:{l}", cl) for l, cl in sp.sub_clauses(SUB.acc(0)(R.vals[key]), SUB.acc(1)(R.vals[key]), T.vals[key], sp.nv, outer=[i], guard=in_range(i, k), tag="so", pat=T.keys[i])]
     return out
 
@@ -612,3 +615,24 @@ class SplitJac(Contract):
         out = [("functions", z3.ForAll([f], R.member[f] == T.member[f], patterns=[R.member[f]]))]
         out += [(f"split:{l}", cl) for l, cl in sp.sub_clauses(SUB.acc(0)(R.vals[f]), SUB.acc(1)(R.vals[f]), T.vals[f], sp.nv, outer=[f], guard=T.member[f], tag="se", pat=T.member[f])]
         return out
+
+
+@register
+class LastOccurrenceLemmas(Contract):
+    """For pairwise distinct variables the last occurrence of variables[b] is b (induction on the prefix length), so the postcondition
+    of split_jac reads split_jac(T, variables)[f][v_b] = T[f][:, off(b) : off(b) + size_b]."""
+
+    targets = ()
+    prop = ("C07",)
+    lemma = True
+
+    def lemmas(self):
+        V = z3.Const("V", NAMES.dt.accessor(0, 1).range())
+        n, m, b, b2, mm = z3.Ints("n m b b2 mm")
+        x = z3.Const("x", TStr.sort())
+        last = lambda k, y: _last(V, k, y)  # noqa: E731
+        defn = z3.And(z3.ForAll([x], last(0, x) == -1), z3.ForAll([mm, x], z3.Implies(mm >= 0, last(mm + 1, x) == z3.If(V[mm] == x, mm, last(mm, x)))))
+        distinct = z3.ForAll([b, b2], z3.Implies(z3.And(0 <= b, b < b2, b2 < n), V[b] != V[b2]))
+        claim = lambda k: z3.ForAll([b], z3.Implies(z3.And(0 <= b, b < k), last(k, V[b]) == b))  # noqa: E731
+        return [("last-is-own-index:base", z3.Implies(defn, claim(z3.IntVal(0)))),
+                ("last-is-own-index:step", z3.Implies(z3.And(defn, distinct, 0 <= m, m < n, claim(m)), claim(m + 1)))]
